@@ -390,6 +390,10 @@ def c18_cases(tier):
         for first in ((False,) if quick else (False, True)):
             for lang in langs:
                 add("foreign", "foreign:%s" % ("+".join(fs) or "none"), wrapped_model(ctxs, w, "Box", fs, foreign_first=first), lang)
+    # S3a a header far larger than one pipe buffer (1200 plain user records + a table of them, > 64 KiB from cbindgen)
+    for (ctxs, w) in ((["arc"], None), (["arc", "MyCtx"], ["borrow", "into", "get_mut"])):
+        for lang in langs:
+            add("foreign", "foreign:bulk", wrapped_model(ctxs, w, "Box", ["bulk"]), lang)
     # S3b users of `const TypeLayout *`: undeclared / declared as a struct / (C++) declared as an alias
     for kind in ("layout_undeclared", "layout_struct", "layout_alias"):
         for (ctxs, w) in ((["arc"], None), (["arc", "MyCtx"], ["borrow", "into", "get_mut"])):
